@@ -2,6 +2,7 @@ import PyYetiVerif.Model.Locate
 import Mathlib.Order.Defs.LinearOrder
 import Mathlib.Order.Basic
 import Mathlib.Data.List.Forall2
+import Mathlib.Algebra.BigOperators.Group.List.Basic
 /-!
 Helper lemmas for the sorted search with re-check shared by `mat_intersect` and `mkdofpv`
 (`Model/Locate.lean`).
@@ -228,6 +229,45 @@ theorem mem_of_forall₂ {β γ : Type} {f : β → Option γ} {l : List β} {ps
       · rintro ⟨p, rfl | hp, hf⟩
         · rw [hab] at hf; exact Or.inl (Option.some.inj hf).symm
         · exact Or.inr ⟨p, hp, hf⟩
+
+
+theorem foldl_or_mem (x : Int) : ∀ (v : List Int) (b : Bool),
+    v.foldl (fun acc i => acc || decide (x = i)) b = (b || decide (x ∈ v))
+  | [], b => by simp
+  | a :: t, b => by
+      rw [List.foldl_cons, foldl_or_mem x t]
+      by_cases h : x = a <;> simp [h]
+
+theorem zip_abs_sum_zero : ∀ (r row : List Int), r.length = row.length →
+    ((((r.zip row).map fun p => (p.1 - p.2).natAbs).sum = 0) ↔ r = row)
+  | [], [], _ => by simp
+  | [], _ :: _, h => by simp at h
+  | _ :: _, [], h => by simp at h
+  | a :: t, b :: u, h => by
+      have ih := zip_abs_sum_zero t u (by simpa using h)
+      simp only [List.zip_cons_cons, List.map_cons, List.sum_cons, Nat.add_eq_zero_iff,
+        Int.natAbs_eq_zero, List.cons.injEq, ih]
+      constructor
+      · rintro ⟨h1, h2⟩; exact ⟨by omega, h2⟩
+      · rintro ⟨h1, h2⟩; exact ⟨by omega, h2⟩
+
+theorem foldl_max_spec : ∀ (m : List Int) (a : Nat),
+    let M := m.foldl (fun acc d => max acc d.natAbs) a
+    a ≤ M ∧ (∀ d ∈ m, d.natAbs ≤ M) ∧ (M = a ∨ ∃ d ∈ m, d.natAbs = M)
+  | [], a => by simp
+  | x :: t, a => by
+      obtain ⟨h1, h2, h3⟩ := foldl_max_spec t (max a x.natAbs)
+      simp only [List.foldl_cons]
+      refine ⟨by omega, ?_, ?_⟩
+      · intro d hd
+        rcases List.mem_cons.mp hd with hdx | hd
+        · rw [hdx]; exact Nat.le_trans (Nat.le_max_right a x.natAbs) h1
+        · exact h2 d hd
+      · rcases h3 with h | ⟨d, hd, h⟩
+        · by_cases hm : x.natAbs ≤ a
+          · left; rw [h]; omega
+          · right; exact ⟨x, List.mem_cons_self, by rw [h]; omega⟩
+        · right; exact ⟨d, List.mem_cons_of_mem _ hd, h⟩
 
 
 end PyYetiVerif.Locate
